@@ -77,17 +77,17 @@ def _check_main(run, P):
     run.rule("C12.emitters", "the type traversals that emit allocation, release and "
              "initialisation code reach every component, allocate outside-in, release "
              "inside-out and nullify after release", minimum=12)
-    _emitters(run, P)
-    _release_sites(run, P)
-    _fresh(run, P)
-    _allocatable(run, P)
-    _exit(run, P)
-    _move(run, P)
-    _alloc(run, P)
-    _routines(run, P)
-    _init_shutdown(run, P)
-    _lastuse(run, P)
-    _visitors(run, P)
+    run.do(_emitters, run, P)
+    run.do(_release_sites, run, P)
+    run.do(_fresh, run, P)
+    run.do(_allocatable, run, P)
+    run.do(_exit, run, P)
+    run.do(_move, run, P)
+    run.do(_alloc, run, P)
+    run.do(_routines, run, P)
+    run.do(_init_shutdown, run, P)
+    run.do(_lastuse, run, P)
+    run.do(_visitors, run, P)
 
 
 def exit_label(P):
